@@ -21,7 +21,9 @@ RULE = (
     "Hypothesis-generated (calendar, start day, amount) and (calendar, start, end, unit subset) over all calendar ids; "
     "second date = first + biased delta (same month, same year, +/-1 year, +/-leap cycle, range-leaving); amounts "
     "biased to {1,7,299,300,301,354,366,10^4} multiples; all 15 date-unit subsets, LocalDateTime unit subsets sampled "
-    "over all 1023, LocalTime 63, YearMonth 3. Non-trivial: the pair straddles a year / leap-month / intercalary "
+    "over all 1023, LocalTime 63, YearMonth 3; per calendar a deterministic panel: all pairs among the month-edge "
+    "dates of seed-chosen years (single units + default), month/year arithmetic from those dates, whole-year day "
+    "steps from the days around every year boundary of 120 years; PeriodBuilder indexers. Non-trivial: the pair straddles a year / leap-month / intercalary "
     "boundary, |n| >= 300, the unit subset omits the finest unit, or the operation must raise. Distinct = case hash."
 )
 ASSUMPTIONS = [
